@@ -90,7 +90,8 @@ INB = ["0 <= self.current", "self.current < len(self.code)"]
 BLANK = "(self.code[old(self.current)] == ' ' or self.code[old(self.current)] == '\\n' or self.code[old(self.current)] == '\\t' or self.code[old(self.current)] == '\\r')"
 ONE_TOKEN = ["len(self.tokens) == old(len(self.tokens)) + 1",
              "forall(0, old(len(self.tokens)), lambda k: self.tokens[k] == old(self.tokens)[k])",
-             "self.tokens[old(len(self.tokens))].lexeme == text(self.code, self.start, self.current)"]
+             "self.tokens[old(len(self.tokens))].lexeme == text(self.code, self.start, self.current)",
+             "self.tokens[old(len(self.tokens))] is not None"]
 
 REG.contract(S + "at_end", returns="bool", tags=TAGS, ensures=["result == (self.current >= len(self.code))"])
 REG.contract(S + "advance", returns="char", tags=TAGS, requires=["0 <= self.current"], modifies=["self.current"],
@@ -189,7 +190,8 @@ REG.contract(S + "scan_token", requires=BOUNDS + INB + ["self.start == self.curr
              ensures=["self.current > old(self.current)", "self.current <= len(self.code)",
                       "forall(0, old(len(self.tokens)), lambda k: self.tokens[k] == old(self.tokens)[k])",
                       # exactly one token spelling the consumed span, or one blank and no token
-                      "(len(self.tokens) == old(len(self.tokens)) + 1 and self.tokens[old(len(self.tokens))].kind != 'EOF' and "
+                      "(len(self.tokens) == old(len(self.tokens)) + 1 and self.tokens[old(len(self.tokens))] is not None and "
+                      "self.tokens[old(len(self.tokens))].kind != 'EOF' and "
                       "self.tokens[old(len(self.tokens))].lexeme == text(self.code, old(self.current), self.current)) or "
                       f"(len(self.tokens) == old(len(self.tokens)) and self.current == old(self.current) + 1 and {BLANK})"])
 
@@ -202,6 +204,7 @@ REG.contract(S + "scan", params={"add_intercept": "bool"}, returns="list[Tok]", 
              raises={"ScanError": None, "IndexError": None},
              ensures=["self.current == len(self.code)",                       # the whole string was scanned
                       "len(result) >= 1", "result[len(result) - 1].kind == 'EOF'",
+                      "forall(0, len(result), lambda k: result[k] is not None)",
                       "forall(0, len(result) - 1, lambda k: result[k].kind != 'EOF')",      # what Parser requires of its input
                       # at most one '~'
                       "forall(0, len(result), lambda a: forall(0, len(result), lambda b: "
@@ -212,7 +215,8 @@ REG.contract(S + "scan", params={"add_intercept": "bool"}, returns="list[Tok]", 
                       f"implies(add_intercept, forall(0, len(result), lambda t: implies(result[t].kind == 'TILDE', "
                       f"t + 2 < len(result) and result[t + 1] == {ONE} and result[t + 2] == {PLUS})))"],
              loops={1: Loop(invariant=["0 <= self.start", "self.start <= self.current", "self.current <= len(self.code)",
-                                       "forall(0, len(self.tokens), lambda k: self.tokens[k].kind != 'EOF')"],
+                                       "forall(0, len(self.tokens), lambda k: self.tokens[k].kind != 'EOF')",
+                                       "forall(0, len(self.tokens), lambda k: self.tokens[k] is not None)"],
                             modifies=["self.start", "self.current", "self.tokens"])})
 
 FUNCTIONS = [S + f for f in ("scan", "at_end", "advance", "peek", "peek_next", "match", "add_token", "floatnum", "number", "identifier",
